@@ -4,7 +4,7 @@ from enum import auto, Enum
 from io import BytesIO, StringIO
 from time import time
 from typing import Awaitable, Callable, Iterable, List, Optional, Tuple, Union
-from urllib.parse import unquote
+from urllib.parse import unquote_to_bytes
 
 from wsproto.connection import Connection, ConnectionState, ConnectionType
 from wsproto.events import (
@@ -214,7 +214,7 @@ class WSStream:
                 "asgi": {"spec_version": "2.3", "version": "3.0"},
                 "scheme": self.scheme,
                 "http_version": event.http_version,
-                "path": unquote(path.decode("ascii")),
+                "path": unquote_to_bytes(path).decode("utf-8", "replace"),
                 "raw_path": path,
                 "query_string": query_string,
                 "root_path": self.config.root_path,
